@@ -280,3 +280,26 @@ Proof.
   - vm_compute. reflexivity.
   - vm_compute. reflexivity.
 Qed.
+
+(* ------------------------------------------------------------ size of the escaped text *)
+
+Definition needs_escape (c : Z) : bool := (c =? BSL) || (c =? DQ).
+
+Theorem escape_length s :
+  length (escape s) = (length s + length (filter needs_escape s))%nat.
+Proof.
+  rewrite escape_flat. induction s as [|x s IH]; [reflexivity|].
+  cbn [flat_map filter]. rewrite app_length, IH. unfold esc1, needs_escape.
+  destruct (x =? BSL); cbn [orb]; [cbn [length]; lia|].
+  destruct (x =? DQ); cbn [length]; lia.
+Qed.
+
+(* the escaped text contains no line end unless the string does *)
+Theorem escape_no_new_line_end s : no_line_end s -> no_line_end (escape s).
+Proof.
+  intros N c Hc. rewrite escape_flat in Hc. apply in_flat_map in Hc as (x & Hx & Hc).
+  destruct (esc1_shape x) as [(-> & E)|[(-> & E)|(A & B & E)]]; rewrite E in Hc; cbn in Hc.
+  - destruct Hc as [<-|[<-|[]]]; unfold BSL, LF, CR; split; lia.
+  - destruct Hc as [<-|[<-|[]]]; unfold BSL, DQ, LF, CR; split; lia.
+  - destruct Hc as [<-|[]]. apply N. exact Hx.
+Qed.
